@@ -168,9 +168,126 @@ def replace (c : ZipCursor) (x y : Nat) : Stat × Option (Nat × Nat) × ZipCurs
 def index (c : ZipCursor) : Nat := wdec c.done1.length
 end ZipCursor
 
+/-! ## histories of a single array (C01) -/
+
+/-- the user callbacks of a history: filter predicate, `contains_value` comparator, `reduce`
+function, and the assumed behaviour of `qsort` under the sort comparator -/
+structure Cfg where
+  pred   : Nat → Bool
+  cmp    : Nat → Nat → Int
+  fn     : Nat → Nat → Nat
+  sortFn : List Nat → List Nat
+
+/-- the operations C01 names -/
+inductive Op where
+  | add (x : Nat) | addAt (x i : Nat) | replaceAt (x i : Nat) | swapAt (i j : Nat)
+  | remove (x : Nat) | removeAt (i : Nat) | removeLast | removeAll | removeAllFree
+  | reverse | filterMut | trimCapacity | sort
+  | getAt (i : Nat) | getLast | indexOf (x : Nat) | contains (x : Nat) | containsValue (x : Nat)
+  | size | map | reduce (r0 : Nat)
+  deriving Repr, DecidableEq
+
+/-- what a call reports: status (none for `void`/count functions), out-value, callback log -/
+structure Out where
+  st  : Option Stat := none
+  val : Option Nat := none
+  log : List Nat := []
+  deriving Repr, DecidableEq
+
+/-- the status of a call that was blocked by the allocator or by the capacity limit -/
+def Out.blocked (o : Out) : Option Stat :=
+  if o.st = some .errAlloc ∨ o.st = some .errMaxCapacity then o.st else none
+
+/-- one step of the ideal list.  `blk` is the blocking status the implementation reported for this
+call (`none`: not blocked): an allocating call (`add`, `add_at`, `trim_capacity`) that was blocked
+reports that status and changes nothing; every other call ignores `blk`. -/
+def step (cfg : Cfg) (xs : List Nat) (op : Op) (blk : Option Stat) : Out × List Nat :=
+  match op with
+  | .add x => match blk with
+    | some st => ({ st := some st }, xs)
+    | none => let r := add xs x; ({ st := some r.1 }, r.2)
+  | .addAt x i => match blk with
+    | some st => ({ st := some st }, xs)
+    | none => let r := addAt xs x i; ({ st := some r.1 }, r.2)
+  | .trimCapacity => match blk with
+    | some st => ({ st := some st }, xs)
+    | none => ({ st := some .ok }, xs)
+  | .replaceAt x i => let r := replaceAt xs x i; ({ st := some r.1, val := r.2.1 }, r.2.2)
+  | .swapAt i j => let r := swapAt xs i j; ({ st := some r.1 }, r.2)
+  | .remove x => let r := remove xs x; ({ st := some r.1, val := r.2.1 }, r.2.2)
+  | .removeAt i => let r := removeAt xs i; ({ st := some r.1, val := r.2.1 }, r.2.2)
+  | .removeLast => let r := removeLast xs; ({ st := some r.1, val := r.2.1 }, r.2.2)
+  | .removeAll => ({}, removeAll xs)
+  | .removeAllFree => let r := removeAllFree xs; ({ val := some r.1 }, r.2)
+  | .reverse => ({}, reverse xs)
+  | .filterMut => let r := filterMut cfg.pred xs; ({ st := some r.1, log := if r.1 = .ok then xs.reverse else [] }, r.2)
+  | .sort => ({}, sort cfg.sortFn xs)
+  | .getAt i => let r := getAt xs i; ({ st := some r.1, val := r.2 }, xs)
+  | .getLast => let r := getLast xs; ({ st := some r.1, val := r.2 }, xs)
+  | .indexOf x => let r := indexOf xs x; ({ st := some r.1, val := r.2 }, xs)
+  | .contains x => ({ val := some (contains xs x) }, xs)
+  | .containsValue x => ({ val := some (containsValue cfg.cmp xs x) }, xs)
+  | .size => ({ val := some xs.length }, xs)
+  | .map => ({ log := mapVisit xs }, xs)
+  | .reduce r0 => let r := reduce cfg.fn xs r0; ({ val := some r.2, log := r.1 }, xs)
+
+/-- a history on the ideal list; `blks` lists the blocking status of each call (missing = none) -/
+def run (cfg : Cfg) (xs : List Nat) : List Op → List (Option Stat) → List Out × List Nat
+  | [], _ => ([], xs)
+  | op :: ops, blks =>
+    let r := step cfg xs op (blks.headD none)
+    let rs := run cfg r.2 ops blks.tail
+    (r.1 :: rs.1, rs.2)
+
 /-! ## stack vocabulary (C09): the top of the stack is the end of the list -/
 def push (xs : List Nat) (x : Nat) : Stat × List Nat := add xs x
 def pop (xs : List Nat) : Stat × Option Nat × List Nat := removeLast xs
 def peek (xs : List Nat) : Stat × Option Nat := getLast xs
+
+/-! ## iterator-driving programs (C07) -/
+
+inductive IterOp where
+  | next | remove | add (x : Nat) | replace (x : Nat) | index
+  deriving Repr, DecidableEq
+
+/-- one iterator call on the ideal cursor (`blk`: blocking status of an `add`, as in `step`) -/
+def Cursor.step (c : Cursor) (op : IterOp) (blk : Option Stat) : Out × Cursor :=
+  match op with
+  | .next => let r := c.next; ({ st := some r.1, val := r.2.1 }, r.2.2)
+  | .remove => let r := c.remove; ({ st := some r.1, val := r.2.1 }, r.2.2)
+  | .add x => match blk with
+    | some st => ({ st := some st }, c)
+    | none => let r := c.add x; ({ st := some r.1 }, r.2)
+  | .replace x => let r := c.replace x; ({ st := some r.1, val := r.2.1 }, r.2.2)
+  | .index => ({ val := some c.index }, c)
+
+def Cursor.run (c : Cursor) : List IterOp → List (Option Stat) → List Out × Cursor
+  | [], _ => ([], c)
+  | op :: ops, blks =>
+    let r := c.step op (blks.headD none)
+    let rs := Cursor.run r.2 ops blks.tail
+    (r.1 :: rs.1, rs.2)
+
+/-- push/pop/peek/size interleavings -/
+inductive SOp where
+  | push (x : Nat) | pop | peek | size
+  deriving Repr, DecidableEq
+
+/-- one step of the ideal stack; `blk` as in `step` (only `push` can be blocked) -/
+def sstep (xs : List Nat) (op : SOp) (blk : Option Stat) : Out × List Nat :=
+  match op with
+  | .push x => match blk with
+    | some st => ({ st := some st }, xs)
+    | none => let r := push xs x; ({ st := some r.1 }, r.2)
+  | .pop => let r := pop xs; ({ st := some r.1, val := r.2.1 }, r.2.2)
+  | .peek => let r := peek xs; ({ st := some r.1, val := r.2 }, xs)
+  | .size => ({ val := some xs.length }, xs)
+
+def srun (xs : List Nat) : List SOp → List (Option Stat) → List Out × List Nat
+  | [], _ => ([], xs)
+  | op :: ops, blks =>
+    let r := sstep xs op (blks.headD none)
+    let rs := srun r.2 ops blks.tail
+    (r.1 :: rs.1, rs.2)
 
 end CC.Spec.Seq
